@@ -454,13 +454,13 @@ pub fn gen_history(rng: &mut Rng) -> Vec<Op> {
                     2 => Some((cur.saturating_mul(10) + 1, hgt + 10_000)),      // just over x10
                     3 => Some((cur, hgt + 10_000)),                             // unchanged value
                     4 => Some((cur.saturating_mul(10), hgt + 9_999)),           // ramp time just under the minimum
-                    5 if cur % 10 == 0 && cur >= 10 => Some((cur / 10, hgt + 10_000)),   // exactly /10 (accepted by the inverted test and by the repaired one)
+                    5 => Some(((cur / 10).max(1), hgt + 10_000)),                // about /10: accepted iff future_a * 10 >= current
                     6 => Some((0, hgt + 20_000)),
                     7 => Some((1_000_001, hgt + 20_000)),
                     8 => Some((1_000_000.min(cur.saturating_mul(10)), hgt + 50_000)),
                     9 => Some((cur + 1, u64::MAX)),
                     10 => Some((cur.saturating_mul(2).max(1), hgt + 10_000 + rng.below(5))),
-                    _ => Some((gen_amp(rng), hgt + 10_000)).filter(|(a, _)| *a >= cur || *a == 0),   // decreases other than exact /10 are left to C04
+                    _ => Some((if rng.chance(1, 2) { gen_amp(rng) } else { (cur / 10).saturating_sub(rng.below(2)) + rng.below(2) }, hgt + 10_000)),
                 };
                 Op::TrioUpd { who: gen_who_child(rng, tk[i]), i, f: if rng.chance(1, 3) { Some(gen_fees(rng)) } else { None }, ramp }
             }
